@@ -97,7 +97,7 @@ def check(run):
             k = ERR_KINDS[i % len(ERR_KINDS)]
             g = glue(s, k, via_macro=(i % 4 == 1))
             tag = "custom:" + k[0] + (",macro" if s.macro_params else "")
-        u = shards.Unit("u_" + s.name.lower(), g, meta={"enum_src": s.render()}, sig=tag + "," + s.signature(), head=(strgen.CAPTURE_HEAD, ERR_HEAD))
+        u = shards.Unit("u_" + s.name.lower(), g, meta={"enum_src": s.render(), "bare_src": s.render_bare()}, sig=tag + "," + s.signature(), head=(strgen.CAPTURE_HEAD, ERR_HEAD))
         units.append(u)
         spec_by_unit[u.name] = s
     for i in range(1000 if thorough else 180):
@@ -105,7 +105,7 @@ def check(run):
         s.use_phf = True
         s.std_derives = ["Debug", "PartialEq", "Clone"]
         k = ERR_KINDS[i % len(ERR_KINDS)]
-        u = shards.Unit("u_" + s.name.lower(), glue(s, k), meta={"enum_src": s.render()}, sig="phf,custom:" + k[0] + "," + s.signature(), head=(strgen.CAPTURE_HEAD, ERR_HEAD))
+        u = shards.Unit("u_" + s.name.lower(), glue(s, k), meta={"enum_src": s.render(), "bare_src": s.render_bare()}, sig="phf,custom:" + k[0] + "," + s.signature(), head=(strgen.CAPTURE_HEAD, ERR_HEAD))
         units_phf.append(u)
         spec_by_unit[u.name] = s
     run.rule = RULE
